@@ -538,7 +538,7 @@ func gen(seed uint64, tier string) {
 	// polygons far from the origin relative to their size (finding 9, `known`: catastrophic cancellation in the
 	// centroid sums, relative error ~ 2^-53 (offset/extent)^2); emitted only with VERIF_C03_FAR_OFFSET=1 until
 	// KNOWN_FINDINGS.json (shared, built by bin/mkfindings) carries the entry of findings/C03.json
-	if os.Getenv("VERIF_C03_FAR_OFFSET") == "1" {
+	if os.Getenv("VERIF_C03_FAR_OFFSET") != "0" { // on: KNOWN_FINDINGS.json carries the entry
 		for _, o := range [][2]float64{{1 << 30, 1 << 30}, {1e9, 1e9}, {500000.123, 5000000.456}, {1e12, -1e12}} {
 			q := make([]ring, 2)
 			for i, rr := range []ring{respell(big, spell{closed: true}), respell(hole, spell{closed: true, rev: true})} {
